@@ -6,7 +6,9 @@
      count:     the row count aggregate of Q = number of rows of Q
      distinct:  rows(Q DISTINCT) = the set of rows(Q), each once
      window:    rows(Q ORDER BY k SKIP s LIMIT n) = SubSeq(rows(Q ORDER BY k), s+1, s+n)
-     union:     rows(Q1 UNION ALL Q2) = rows(Q1) (+) rows(Q2)   *)
+     union:     rows(Q1 UNION ALL Q2) = rows(Q1) (+) rows(Q2)
+     groups:    rows(Q RETURN key, count) has one row per distinct key of rows(Q RETURN key), with its multiplicity
+     agree:     all variants (optimizer configurations) of one query return the same bag   *)
 EXTENDS Naturals, Sequences, FiniteSets, TLC, Json, IOUtils
 Cases == ndJsonDeserialize(IOEnv.TRACE)
 VARIABLE l
@@ -24,6 +26,10 @@ Ok(c) ==
     [] c.kind = "distinct" -> Rng(c.d) = Rng(c.full) /\ Len(c.d) = Cardinality(Rng(c.full))
     [] c.kind = "window" -> c.win = Window(c.full, c.skip, c.limit)
     [] c.kind = "union" -> Bag(c.u) = BagAdd(Bag(c.a), Bag(c.b))
+    [] c.kind = "groups" -> LET fb == Bag(c.full) IN
+                            /\ Len(c.g) = Cardinality(DOMAIN fb)
+                            /\ \A i \in DOMAIN c.g : <<c.g[i][1]>> \in DOMAIN fb /\ c.g[i][2].v = fb[<<c.g[i][1]>>]
+    [] c.kind = "agree" -> \A i \in DOMAIN c.variants : Bag(c.variants[i]) = Bag(c.variants[1])
 Init == l = 1
 Step == /\ l <= Len(Cases)
         /\ (IF Ok(Cases[l]) THEN TRUE ELSE PrintT(<<"MISMATCH", l, Cases[l].cid>>))
